@@ -57,7 +57,7 @@ package fees
 //@   requires coin.Currency.Name == st.feeOpt.FeeCurrency.Name                                              // C18.fee-currency
 //@   requires big(coin.Amount) >= 0                                                                         // C02.sign
 //@   modifies fee(st)[POOL_KEY], feeTotal(st), vHas(st.state), vVal(st.state)
-//@   ensures err == nil ==> fee(st)[POOL_KEY] == old(fee(st))[POOL_KEY] - big(coin.Amount) && feeTotal(st) == old(feeTotal(st)) - big(coin.Amount)   // C02.delta
+//@   ensures err == nil ==> fee(st)[POOL_KEY] == old(fee(st))[POOL_KEY] - big(coin.Amount) && old(fee(st))[POOL_KEY] >= big(coin.Amount) && feeTotal(st) == old(feeTotal(st)) - big(coin.Amount)   // C02.delta
 //@   ensures err != nil ==> fee(st)[POOL_KEY] == old(fee(st))[POOL_KEY] && feeTotal(st) == old(feeTotal(st))                                        // C02.delta
 
 // the minimal fee 10^(Decimal-MinFeeDecimal) in the fee currency (big.Int.Exp is uninterpreted in the verifier; a power of ten is positive) — assumed
